@@ -103,7 +103,10 @@ func (r *RectClip64) path1ContainsPath2(path1 Path64, path2 Path64) bool {
 			break
 		}
 	}
-	return ioCount <= 0
+	if ioCount == 0 {
+		return PointInPolygon(r.mp, path1) == IsInside
+	}
+	return ioCount < 0
 }
 
 func (r *RectClip64) addCornerLocation(prev, curr Location) {
